@@ -1,82 +1,40 @@
-(* as_dict / as_obj as far as the REGISTRY is concerned (node.py:258-283 `_deserialize`; the JSON itself is C04's
-   Model/Serial.v).  A serialized tree is a value carrying the id of every node.  Reading it back returns the
-   registered node when the id is registered (WHATEVER node that is), otherwise builds the children, then the node
-   (fresh id by the usual rule, the class's own validation included) and, when the fresh id differs from the
-   serialized one, pops the fresh id, writes the serialized id into the new node and registers it under that id -
-   overwriting whatever entry the id has meanwhile got (it can only have got one from a node read further down the same
-   value).  Definitions only. *)
+(* as_dict / as_obj as far as the REGISTRY is concerned (node.py `_deserialize`; the JSON itself is C04's Model/Serial.v).
+   Since the third round the definitions live in Model/Registry.v, because `AsDict src slot` / `AsObj slot dst` are
+   operations of `step` / `run` there:
+     sval, ser, ser_st   the id-carrying value of a held tree (as_dict)
+     with_id, force_id   the forced-id branch; `force_id true` = the code in /repo (the serialized id is forced only while
+                         it is free, otherwise the new node keeps the unique id it was just given), `force_id false` = the
+                         code before the repair (overwrite whatever entry the id has meanwhile got)
+     deser               ASTNode._deserialize: a registered id is answered by the registered node (WHATEVER node that is),
+                         otherwise the children are read, then the node is built (fresh id by the usual rule, the class's
+                         own validation included) and the serialized id is forced when the fresh one differs
+     sdepth              the fuel `S (sdepth v)` used by `step_raw` (Proofs/RegistrySerProofs.v: never exhausted)
+   This file re-exports them and keeps worked examples (vm_compute). *)
 From Oak Require Export Model.Registry.
 
-Inductive sval := SNode (i : pystr) (c : pystr) (o : origin) (ps : list (pystr * pval))
-                        (ks : list (pystr * (kshape * list sval))).
+Definition ser_ct : ctable :=
+  [{| cd_name := lit "A"; cd_bases := [];
+      cd_own := [{| fd_name := lit "v"; fd_role := RProp; fd_compare := true; fd_init := true; fd_kwonly := false |}] |};
+   {| cd_name := lit "B"; cd_bases := [];
+      cd_own := [{| fd_name := lit "xs"; fd_role := RChild KTup; fd_compare := true; fd_init := true; fd_kwonly := false |}] |}].
+Definition ser_H (s : pystr) : pystr := firstn 2 (rev s).
+Definition ser_leaf (dst : nat) (v : Z) : op := New dst (lit "A") ONo [(lit "v", VInt v)] [].
 
-(* as_dict of the tree under address a *)
-Fixpoint ser (hp : list cell) (fuel : nat) (a : nat) : option sval :=
-  match fuel with
-  | 0 => None
-  | S f => match nth_error hp a with
-           | None => None
-           | Some c =>
-             match mapO (fun k : pystr * (kshape * list nat) =>
-                           option_map (fun l => (fst k, (fst (snd k), l))) (mapO (ser hp f) (snd (snd k)))) (k_kids c) with
-             | Some ks => Some (SNode (k_id c) (k_cls c) (k_org c) (k_props c) ks)
-             | None => None
-             end
-           end
-  end.
-Definition ser_st (s : st) (a : nat) : option sval := ser (heap s) (S a) a.
-
-Definition with_id (c : cell) (i : pystr) : cell :=
-  {| k_cls := k_cls c; k_org := k_org c; k_props := k_props c; k_kids := k_kids c; k_id := i; k_cid := k_cid c |}.
-
-(* NODE_REGISTRY.pop(new_obj.id); object.__setattr__(new_obj, "id", i); NODE_REGISTRY[i] = new_obj.
-   Ghost: a node whose entry is overwritten is recorded in `det` (the library has unregistered it). *)
-Definition force_id (s : st) (a : nat) (cl : cell) (i : pystr) : st :=
-  let r1 := remove_id (k_id cl) (reg s) in
-  {| heap := set_nth a (with_id cl i) (heap s);
-     reg := dict_set i a r1;
-     vars := vars s;
-     det := match lookup i r1 with Some b => b :: det s | None => det s end;
-     gone := gone s |}.
-
-Section Deser.
-  Variable H : pystr -> pystr.
-  Variable ct : ctable.
-  Variable late : st -> nat -> bool.
-
-  Fixpoint deser (fuel : nat) (s : st) (v : sval) : dres nat :=
-    match fuel with
-    | 0 => DFuel
-    | S f =>
-      match v with
-      | SNode i c o ps ks =>
-        match lookup i (reg s) with
-        | Some b => DOk s b                       (* existing_node = NODE_REGISTRY.get(value["id"]) *)
-        | None =>
-          match mapM_d (fun s k => match mapM_d (deser f) s (snd (snd k)) with
-                                   | DOk s' l => DOk s' (fst k, (fst (snd k), l))
-                                   | DLate s' => DLate s'
-                                   | DFuel => DFuel
-                                   end) s ks with
-          | DFuel => DFuel
-          | DLate s1 => DLate s1
-          | DOk s1 ks' =>
-            match construct H ct late s1 c o ps ks' with
-            | DFuel => DFuel
-            | DLate s2 => DLate s2                (* from_dict -> __init__ -> the class's validation raised *)
-            | DOk s2 a =>
-              match cell_at s2 a with
-              | None => DFuel
-              | Some cl => if pystr_eqb (k_id cl) i then DOk s2 a else DOk (force_id s2 a cl i) a
-              end
-            end
-          end
-        end
-      end
-    end.
-
-  Fixpoint sdepth (v : sval) : nat :=
-    match v with
-    | SNode _ _ _ _ ks => S (fold_right (fun k m => fold_right (fun x m' => Nat.max (sdepth x) m') m (snd (snd k))) 0 ks)
-    end.
-End Deser.
+(* x = A(1); y = A(2); p = B((x, y)); d = p.as_dict(); del p, y; q = B.as_obj(d): x is alive and comes back as the very
+   same object (address 0), y and p are new objects (addresses 3, 4) carrying the serialized ids *)
+Definition ser_ops : list op :=
+  [ser_leaf 0 1; ser_leaf 1 2; New 2 (lit "B") ONo [] [(lit "xs", (ShMany, [(0, 0); (1, 0)]))];
+   AsDict (2, 0) 0; Drop 2; Drop 1; AsObj 0 3].
+Example ser_partly_alive :
+  let s := run ser_H ser_ct (fun _ _ => false) true (init_st 4) ser_ops in
+  vars s = [Some 0; None; None; Some 4] /\ tree_of s 4 = [4; 0; 3] /\ length (heap s) = 5 /\
+  option_map k_id (cell_at s 4) = option_map k_id (cell_at s 2) /\
+  option_map k_id (cell_at s 3) = option_map k_id (cell_at s 1) /\
+  map snd (reg s) = [4; 3; 0].
+Proof. vm_compute. repeat split. Qed.
+(* while everything is alive the very same object comes back and nothing is built *)
+Example ser_all_alive :
+  let s := run ser_H ser_ct (fun _ _ => false) true (init_st 4)
+               [ser_leaf 0 1; ser_leaf 1 2; New 2 (lit "B") ONo [] [(lit "xs", (ShMany, [(0, 0); (1, 0)]))]; AsDict (2, 0) 7; AsObj 7 3] in
+  vars s = [Some 0; Some 1; Some 2; Some 2] /\ length (heap s) = 3.
+Proof. vm_compute. repeat split. Qed.
